@@ -28,20 +28,30 @@ func TestCheck(t *testing.T) {
 		"LocalBuildExecutor with a blocking fake runner), timeout 0..100 units, threshold 1..10 units, maximum compensation 0..>timeout, start offset, 1-4 readers with " +
 		"non-overlapping-per-reader suspension intervals (direct Suspend/Resume, SuspendingBlobAccess Get/GetFromComposite/Put/FindMissing/GetCapabilities, " +
 		"SuspendingDirectoryFetcher), optional early cancellation/Stop and parent cancellation; operations of different readers at one instant run concurrently. " +
-		"The base clock only moves to the next timeline event or the next base timer; ties are broken by the PRNG. " +
+		"Additionally concurrent rounds: 2-6 reader goroutines doing Suspend/Resume pairs (directly and through both decorators) over a base clock that moves on every Now() call and " +
+		"whose Now() may let an intruder's complete Suspend/stall/Resume run between sampling the time and returning it; judged by interval bounds that hold for every interleaving. " +
+		"In the timelines the base clock only moves to the next timeline event or the next base timer; ties are broken by the PRNG. " +
 		"non-trivial = at least one counted situation; distinct = hash of parameters plus the observed sequence of (time, event) incl. base timer firings and the outcome")
 	r.Assume("1 unit = 1 ms of virtual time; thresholds are >= 1 unit (bb_worker hard-codes 100 ms; a zero threshold makes the re-arm loop spin and is outside the domain)")
 	r.Assume("decided on the simulated base clock only; OS scheduling jitter between a base timer firing and its handling is not modelled (the driver waits for quiescence after every firing)")
+	r.Assume("concurrent rounds: a reader certainly has the clock suspended from the return of its suspending call to the call of its resuming call and possibly from call to return; timestamps come from the same auto-ticking clock")
 	r.Assume("fake runner returns status.FromContextError(ctx.Err()) when its context ends, as a gRPC client call does")
 	if f := r.ReplayFile(); f != "" {
 		var w struct {
 			Witness struct {
-				Case tcase `json:"case"`
+				Case  tcase           `json:"case"`
+				Round *stressRoundCfg `json:"round"`
 			} `json:"witness"`
 		}
 		b, err := os.ReadFile(f)
-		if err != nil || json.Unmarshal(b, &w) != nil || w.Witness.Case.Kind == "" {
+		if err != nil || json.Unmarshal(b, &w) != nil || (w.Witness.Case.Kind == "" && w.Witness.Round == nil) {
 			r.Inconclusive("cannot read replay file %s", f)
+			return
+		}
+		if w.Witness.Round != nil {
+			for i := 0; i < 20; i++ { // scheduling dependent
+				concurrentRound(r, *w.Witness.Round)
+			}
 			return
 		}
 		runCase(r, w.Witness.Case)
@@ -53,6 +63,16 @@ func TestCheck(t *testing.T) {
 	}
 	r.Floor("executor-deadline-exceeded", 5)
 	r.Floor("executor-finished-in-time", 5)
+
+	r.Floor("concurrent-suspension-intervals", 200)
+	r.Floor("intruder-launched-inside-base-now", 50)
+	r.Floor("concurrent-round-with-uncertain-intervals", 20)
+
+	// Concurrent monitor first: it changes GOMAXPROCS, which is process wide.
+	for i := 0; i < r.Pick(300, 6000); i++ {
+		rng := r.Rand(60, uint64(i))
+		concurrentRound(r, stressRoundCfg{Round: i, Readers: 2 + rng.IntN(5), OpsEach: 3 + rng.IntN(6), InjectPct: []int{10, 30, 60}[rng.IntN(3)], Procs: []int{2, 4, 16}[rng.IntN(3)]})
+	}
 
 	nCtx := r.Pick(4000, 120000)
 	nTimer := r.Pick(1600, 50000)
